@@ -11,6 +11,6 @@ git apply "$sd/patch.diff" || { echo "patch does not apply"; exit 2; }
 echo "== baseline tests with patch"; /venv/bin/python -m pytest -q -p no:cacheprovider --timeout=900 --continue-on-collection-errors 2>&1 | tail -1
 echo "== demo with patch"; rundemo > /tmp/seed_demo_patched.log 2>&1; echo "exit=$?"; tail -3 /tmp/seed_demo_patched.log
 for id in "$@"; do
-  echo "== check $id (quick) with patch"; (cd /verif && ./check $id --tier quick 2>&1 | grep -E "VIOLATION|KNOWN|obligations" | head -8)
+  echo "== check $id (quick) with patch"; (cd /verif && ./check $id --tier quick 2>&1 | tee /root/spike/seed_last.log | grep -E "VIOLATION|obligations|DISAGREE" | head -8; echo "known-finding lines: $(grep -c KNOWN-FINDING /root/spike/seed_last.log)")
 done
 git -C /repo checkout -- . ; git -C /repo status --short | grep -v egg-info
